@@ -124,11 +124,17 @@ impl Device {
             Operation::Lpm if !op_args.is_empty() => self.allow(NoLpmX),
             Operation::Elpm if !op_args.is_empty() => self.allow(NoElpmX),
             Operation::Ld | Operation::St | Operation::Ldd | Operation::Std => {
-                op_args.iter().filter_map(index_reg).all(|r| match r {
-                    Reg16::X => self.allow(NoXreg),
-                    Reg16::Y => self.allow(NoYreg),
-                    Reg16::Z => true,
-                })
+                // `ld Rd, Z+q` / `st Z+q, Rr` assemble to LDD / STD, which the smallest cores lack
+                let displaced = op_args.iter().any(|arg| match arg {
+                    InstructionOps::Index(IndexOps::PostIncrementE(_, _)) => true,
+                    _ => false,
+                });
+                (!displaced || self.allow(Tiny1x))
+                    && op_args.iter().filter_map(index_reg).all(|r| match r {
+                        Reg16::X => self.allow(NoXreg),
+                        Reg16::Y => self.allow(NoYreg),
+                        Reg16::Z => true,
+                    })
             }
             _ => true,
         }
